@@ -423,6 +423,14 @@ impl Ctx {
             ));
             false
         } else {
+            self.stop.store(true, Ordering::SeqCst);
+            {
+                // one report per signature and at most three per run (workers race to here)
+                let g = self.inner.lock().unwrap();
+                if g.violations.len() >= 3 || g.violations.iter().any(|v| v.sig == f.sig) {
+                    return true;
+                }
+            }
             let path = self.write_replay(&f.sig, &f.detail, replay_case);
             let mut g = self.inner.lock().unwrap();
             g.violations.push(Violation { sig: f.sig.clone(), detail: f.detail.clone(), replay: path });
@@ -585,10 +593,11 @@ fn run_guarded<C: Check>(check: &C, case: &C::Case) -> Outcome {
 
 /// Replay the witnesses of this property's listed findings, then run `cases` generated
 /// cases split over `workers` deterministic sub-streams.
-pub fn drive<C, S>(ctx: &Arc<Ctx>, check: &C, strategy: S, cases: u64, workers: u64)
+pub fn drive<C, S, F>(ctx: &Arc<Ctx>, check: &C, make_strategy: F, cases: u64, workers: u64)
 where
     C: Check,
-    S: Strategy<Value = C::Case> + Clone + Send + Sync,
+    S: Strategy<Value = C::Case>,
+    F: Fn() -> S + Sync,
 {
     replay_witnesses(ctx, check);
     if ctx.has_violation() {
@@ -599,9 +608,9 @@ where
     std::thread::scope(|sc| {
         for w in 0..workers {
             let ctx = ctx.clone();
-            let strategy = strategy.clone();
+            let make_strategy = &make_strategy;
             sc.spawn(move || {
-                worker(&ctx, check, strategy, per, w);
+                worker(&ctx, check, make_strategy(), per, w);
             });
         }
     });
